@@ -10,6 +10,7 @@ import (
 	"io"
 	"math/rand"
 	"os"
+	"reflect"
 	"time"
 
 	"github.com/deepteams/webp"
@@ -144,6 +145,35 @@ func demuxView(data []byte) (e vx.Expect, err error) {
 			fe.Dispose, fe.NoBlend = int(fi.DisposeMode), int(fi.BlendMode)
 		}
 		e.Frames = append(e.Frames, fe)
+	}
+	// the second access path to the same frames: the iterator must hand out exactly Frame(0), Frame(1), ... and end
+	it := d.NewFrameIterator()
+	k := 0
+	for it.HasNext() {
+		fi, err := it.Next()
+		if err != nil || fi == nil {
+			return e, fmt.Errorf("FrameIterator.Next fails at frame %d although HasNext is true: %v", k, err)
+		}
+		fj, err := d.Frame(k)
+		if err != nil || !reflect.DeepEqual(*fi, *fj) {
+			return e, fmt.Errorf("FrameIterator hands out another frame %d than Frame(%d) (%v)", k, k, err)
+		}
+		k++
+		if k > d.NumFrames() {
+			break
+		}
+	}
+	if k != d.NumFrames() {
+		return e, fmt.Errorf("FrameIterator hands out %d frames, NumFrames is %d", k, d.NumFrames())
+	}
+	if fi, err := it.Next(); err == nil || fi != nil {
+		return e, fmt.Errorf("FrameIterator.Next past the last frame returns (%v, %v)", fi, err)
+	}
+	if _, err := d.Frame(d.NumFrames()); err == nil {
+		return e, fmt.Errorf("Frame(NumFrames) succeeds")
+	}
+	if _, err := d.Frame(-1); err == nil {
+		return e, fmt.Errorf("Frame(-1) succeeds")
 	}
 	return e, nil
 }
@@ -379,4 +409,16 @@ func guardedDecodeFrom(data []byte, rd io.Reader) (image.Image, error) {
 		vx.Fatal2("webp.Decode hangs")
 		return nil, nil
 	}
+}
+
+func intsEqual(a, b []int) bool {
+	if len(a) != len(b) {
+		return false
+	}
+	for i := range a {
+		if a[i] != b[i] {
+			return false
+		}
+	}
+	return true
 }
